@@ -37,7 +37,10 @@ ASSUMPTIONS = [
     'with the PARSED instance file; the generator includes the strings yes/no/on/1e3/007/~/null as variable values',
     'the theorems are about flatten_raw (the structural part of instance()); the value part (interpolation of the stored '
     'variables / blueprints / environments, conversion of typed leaves) is modelled (finish) and tied by the '
-    'correspondence but only its conversion step is covered by a theorem',
+    'correspondence but only its conversion step and the closed-string case of interpolation are covered by theorems',
+    'the idempotence theorems (store.load.store = store) are per section of the structural part and assume the side layers '
+    'of a component are `clean` (no stage/override/$import/repeatInterval/isRepeat in blueprints and platform override); the '
+    'complement for repeatInterval is the open finding F7d',
     'DoWhile instances (loop iterations before the reload) are covered by the predicate on the implementation only',
     'output / status-report / virtual-environments / application-dependencies / interface sections are left empty by the '
     'generator and not modelled',
@@ -177,6 +180,13 @@ def gen_conf_case(rng, dens=None):
         doc['variables'].setdefault('q', {}).setdefault('global', {})['onlyq'] = 'Q'
         od, _ = layer_slot(doc, files, rng.choice(['qg', 'qs', 'ovq']))
         put(od, ('command', 'arguments'), 'q-args %(onlyq)s')
+    if rng.random() < 0.06:
+        # F7d class: a repeat interval given by a layer other than the component (drawn rarely: most cases stay outside)
+        inj = inj + '+repeat-interval-from-layer'
+        od, _ = layer_slot(doc, files, rng.choice(['dg', 'ds', 'pg', 'ps', 'ovp', 'ovd', 'qg', 'ds1']))
+        put(od, ('workflowAttributes', 'repeatInterval'), rng.choice([5, 30, 0, 7]))
+        if rng.random() < 0.4:
+            put(comp, ('workflowAttributes', 'repeatInterval'), rng.choice([0, 0, 9]))
     prune(doc['blueprint'])
     prune(doc['variables'])
     for c in doc['components']:
@@ -231,6 +241,36 @@ def env_class(case):
         return False
     return any(e in envs.get('default', {}) and e in envs.get(P, {}) and
                set(envs['default'][e]) - set(envs[P][e]) for e in ENV_NAMES)
+
+
+def repeat_class(case):
+    """F7d: some component's layered repeatInterval (blueprints of default / the selected platform, component, override
+    for the platform; null does not override) is given by a layer other than the component itself, and the isRepeat that
+    FlowIRConcrete.__init__ derives from the component's OWN repeatInterval differs from the one the layered value gives"""
+    if case['kind'] != 'conf':
+        return False
+    doc, P = case['doc'], case['platform']
+    bp = doc.get('blueprint', {})
+    RI = ('workflowAttributes', 'repeatInterval')
+    missing = object()
+    for comp in doc['components']:
+        st = comp.get('stage', 0)
+        side = [get(bp, ('default', 'global'), {}), get(bp, ('default', 'stages', st), {})]
+        if P != 'default':
+            side += [get(bp, (P, 'global'), {}), get(bp, (P, 'stages', st), {})]
+        own = get(comp, RI, missing)
+        ov = get(comp.get('override', {}).get(P, {}) or {}, RI, missing)
+        vals = [get(l or {}, RI, missing) for l in side]
+        if all(v is missing for v in vals) and ov is missing:
+            continue
+        layered = None
+        for v in vals + [own, ov]:
+            if v is not missing and v is not None:
+                layered = v
+        stored_is_repeat = missing if own is missing else (own not in [None, 0])
+        if stored_is_repeat is missing or stored_is_repeat != (layered not in [None, 0]):
+            return True
+    return False
 
 
 # ------------------------------------------------------------------ predicate
@@ -290,8 +330,11 @@ def predicate(ctx, case, obs):
     for i, again in enumerate(obs['stored_again']):
         d = first_diff(obs['stored'], again, 'flowir_instance')
         if d:
+            classes = []
+            if repeat_class(case) and '.workflowAttributes.isRepeat' in d:
+                classes = ['repeat_interval_not_from_the_component_itself']        # F7d
             ctx.fail(dict(rep, difference=d),
-                     'loading the instance and storing it again changed conf/flowir_instance.yaml (cycle %d)' % (i + 1), [])
+                     'loading the instance and storing it again changed conf/flowir_instance.yaml (cycle %d)' % (i + 1), classes)
             break
     if case['kind'] == 'conf':
         # the environment of every node is the package's (F7b, fixed): default platform overlaid per key by the platform's
@@ -374,6 +417,7 @@ def explore(ctx, cases, parallel=True):
             ctx.count('replicate=%s' % case.get('replicate'))
             ctx.count('inject=%s' % case.get('inj'))
             ctx.count('env_on_default_and_platform=%s' % env_class(case))
+            ctx.count('repeat_interval_not_from_component=%s' % repeat_class(case))
         else:
             ctx.count('loop_iterations=%d' % case['k'])
         if 'error' in obs:
